@@ -374,6 +374,46 @@ fn judge_staircase(x: &[f64], lv: &[f64; 16], shape: u8, d: f64) -> Result<(u64,
     Ok((judged, seen))
 }
 
+/// Precise envelope step period: the times of the level changes inside the first ~40 levels must be
+/// spaced by whole multiples of d = 16*EP/f_clk samples ("steps with period 256*EP/f_clk"); the
+/// half-level tolerance of the staircase check cannot see a period that is off by a fraction of a
+/// percent, this check can. Returns Err(description) or Ok(number of level changes used).
+fn judge_step_period(x: &[f64], lv: &[f64; 16], d: f64) -> Result<usize, String> {
+    let gap = (1..16).map(|i| lv[i] - lv[i - 1]).fold(f64::INFINITY, f64::min);
+    let mut cls = classify(x, lv, gap * 0.3);
+    for c in cls.iter_mut().take(20) {
+        *c = None;
+    }
+    let rs = runs(&cls, 8);
+    // boundaries between consecutive plateaus of different level, taken only where the gap between
+    // them is a short filter transition
+    let mut b: Vec<f64> = vec![];
+    for w in rs.windows(2) {
+        if w[0].0 != w[1].0 && w[1].1 - w[0].2 < 40 {
+            b.push((w[0].2 as f64 + w[1].1 as f64) / 2.0);
+        }
+    }
+    if b.len() < 6 {
+        return Ok(0);
+    }
+    let first = b[0];
+    let mut used = 0;
+    for t in b.iter().skip(1) {
+        let span = t - first;
+        if span > 40.0 * d {
+            break;
+        }
+        let k = (span / d).round();
+        let err = (span - k * d).abs();
+        // +-1.5 samples on each of the two boundary estimates, plus 0.03 % for rounding inside the chip
+        if k >= 1.0 && err > 3.0 + 0.0003 * span {
+            return Err(format!("level changes are not spaced by multiples of 16*EP/f_clk = {:.3} samples: a span of {:.1} samples is {:.2} samples away from {} steps (period off by {:.3} %)", d, span, err, k, 100.0 * err / span));
+        }
+        used += 1;
+    }
+    Ok(used)
+}
+
 fn env_unit(ctx: &Ctx, rng: &mut Rng, st: &mut Stats, clock: usize, rate: usize, shape: u8, ep: u16) {
     let ch = rng.below(3) as u8;
     let d = 16.0 * ep.max(1) as f64 / clock as f64 * rate as f64; // samples per AY level
@@ -402,6 +442,13 @@ fn env_unit(ctx: &Ctx, rng: &mut Rng, st: &mut Stats, clock: usize, rate: usize,
         // split the run; in between rewrite registers that must NOT restart the envelope
         let n1 = n / 3 + rng.below((n / 3) as u64) as usize;
         let (mut l, mut r) = gen(&mut ay, n1);
+        match judge_step_period(&l, &lv, d) {
+            Ok(k) => st.env_plateau_samples += k as u64,
+            Err(e) => {
+                ctx.violation(&key("step-period"), &format!("envelope shape {} EP={} at {} Hz: {}", shape, ep, rate, e), wit(&e));
+                return;
+            }
+        }
         ay.write_register(11, ep as u8);
         ay.write_register(12, (ep >> 8) as u8);
         ay.write_register(8 + ch, 0x10);
@@ -909,7 +956,7 @@ pub fn run(ctx: &Ctx) -> Evidence {
         }
     }
     // envelope: all 16 shapes × EP list
-    let eps: Vec<u16> = if quick { vec![1, 2, 7, 100, 1000, 65535] } else { vec![1, 2, 3, 7, 40, 100, 256, 1000, 4096, 65535] };
+    let eps: Vec<u16> = if quick { vec![1, 2, 7, 100, 256, 768, 1000, 65535] } else { vec![1, 2, 3, 7, 40, 100, 256, 512, 768, 1000, 1280, 4096, 65535] };
     for shape in 0..16u8 {
         for &ep in eps.iter() {
             let (clock, rate) = pick_cr(&mut rng, &healthy, 0);
